@@ -262,9 +262,27 @@ Proof.
     rewrite (IH _ eq_refl). now rewrite app_assoc.
 Qed.
 
-Lemma parse_aseq_loop_ok tbl : cls_inj tbl -> forall tables adv seqs known p pre wds,
+Lemma vprop_eqb_refl : forall a, vprop_eqb a a = true.
+Proof.
+  induction a as [k i|k p IHp c IHc]; cbn [vprop_eqb]; rewrite !Z.eqb_refl; cbn [andb].
+  - apply orb_true_r.
+  - rewrite IHp, IHc. apply orb_true_r.
+Qed.
+
+Lemma tags_eqb_refl : forall a, tags_eqb a a = true.
+Proof.
+  induction a as [|[v|] a IH]; cbn [tags_eqb]; [reflexivity| |exact IH]. now rewrite vprop_eqb_refl, IH.
+Qed.
+
+Lemma tkey_eqb_refl : forall a, tkey_eqb a a = true.
+Proof. intros [es tg]. unfold tkey_eqb. cbn [fst snd]. now rewrite table_eqb_refl, tags_eqb_refl. Qed.
+
+Lemma nth_z_map {A B} (f : A -> B) l i x : nth_z l i = Some x -> nth_z (map f l) i = Some (f x).
+Proof. unfold nth_z. destruct (i <? 0); [discriminate|]. intros H. now rewrite nth_error_map, H. Qed.
+
+Lemma parse_aseq_loop_ok tbl : cls_inj tbl -> forall tables adv (seqs : list tkey) known p pre wds,
   forallb tgood tables = true -> known_ok tbl known ->
-  play_adv_g (wd_of tbl known) seqs adv = Some wds -> map_opt (nth_error tbl) pre = Some wds ->
+  play_adv_g (wd_of tbl known) (map fst seqs) adv = Some wds -> map_opt (nth_error tbl) pre = Some wds ->
   parse_aseq_loop tbl tables adv seqs known = Ok p ->
   known_ok tbl (p_wfs p) /\
   exists wds', play_adv_g (wd_of tbl (p_wfs p)) (p_seqs p) (p_adv p) = Some wds' /\
@@ -277,15 +295,17 @@ Proof.
   - cbn [forallb] in G. apply andb_prop in G as [Gt Gr].
     destruct (tgood_inv _ Gt) as (rr & m & ch & -> & Hrr & Gch). cbn [l_ch l_rep] in H.
     unfold bind in H. destruct (parse_table tbl ch known) as [[es known1]|] eqn:Et; [|discriminate].
-    destruct (setdefault table_eqb es seqs) as [sidx seqs'] eqn:Es.
+    destruct (setdefault tkey_eqb (es, map l_volp ch) seqs) as [sidx seqs'] eqn:Es.
     destruct (parse_table_ok _ Hinj _ _ _ _ Gch Hk Et) as ((e1 & ->) & Hk1 & wt & Hpt & Hmt).
-    destruct (setdefault_spec _ _ _ _ _ table_eqb_refl Es) as ((e2 & ->) & es' & Hn & Heq).
-    apply table_eqb_eq in Heq. subst es'.
+    destruct (setdefault_spec _ _ _ _ _ tkey_eqb_refl Es) as ((e2 & ->) & key' & Hn & Heq).
+    unfold tkey_eqb in Heq. cbn [fst] in Heq. apply andb_prop in Heq as [Heq _]. apply table_eqb_eq in Heq.
+    apply (nth_z_map fst) in Hn. rewrite <- Heq in Hn. rewrite map_app in Hn.
     assert (Hmono : forall i x, wd_of tbl known i = Some x -> wd_of tbl (known ++ e1) i = Some x)
       by (intros; now apply wd_of_app).
-    pose proof (play_adv_g_mono _ _ seqs e2 Hmono _ _ Hp) as Hp1.
-    assert (Hn' : nth_z (seqs ++ e2) (sidx + 1 - 1) = Some es) by (replace (sidx + 1 - 1) with sidx by lia; exact Hn).
-    pose proof (play_adv_g_snoc _ _ rr _ _ _ Hn' Hpt _ _ Hp1) as Hp2.
+    pose proof (play_adv_g_mono _ _ (map fst seqs) (map fst e2) Hmono _ _ Hp) as Hp1.
+    assert (Hn' : nth_z (map fst seqs ++ map fst e2) (sidx + 1 - 1) = Some es)
+      by (replace (sidx + 1 - 1) with sidx by lia; exact Hn).
+    pose proof (play_adv_g_snoc _ _ rr _ _ _ Hn' Hpt _ _ Hp1) as Hp2. rewrite <- map_app in Hp2.
     assert (Hm2 : map_opt (nth_error tbl) (pre ++ flatten (Loop rr m None ch)) = Some (wds ++ rep_concat rr wt)).
     { apply map_opt_app; [exact Hm|]. rewrite tflatten. now apply map_opt_rep_concat. }
     destruct (IH _ _ _ _ _ _ Gr Hk1 Hp2 Hm2 H) as (Hk' & wds' & Hp' & Hm').
